@@ -84,6 +84,24 @@ theorem step_good (c : Config) (op : Op) : Good c (stepOp c op) := by
       | none => exact Good.refl _
       | some c' => exact Or.inr (bootstrap_good _ _ _ _ hb)
     · exact Good.refl _
+  | notify op hl rs ex self ns id addr =>
+    simp only [stepOp]
+    unfold storeNotify
+    split
+    · exact Good.refl _
+    split
+    · exact Good.refl _
+    split
+    · exact Good.refl _
+    split
+    · exact Good.refl _
+    simp only
+    split
+    · exact Good.refl _
+    · split
+      · rename_i c' hb
+        exact Or.inr (bootstrap_good _ _ _ _ hb)
+      · exact Good.refl _
 
 /-- the invariant: the configuration is empty (node not bootstrapped) or well-formed -/
 def Valid (c : Config) : Prop := c = [] ∨ WellFormed c
@@ -98,7 +116,8 @@ theorem valid_run (c : Config) (ops : List Op) (h : Valid c) : Valid (runOps c o
   | nil => exact h
   | cons op ops ih => exact ih _ (valid_step c op h)
 
-/-- **Uniqueness.** After ANY sequence of bootstraps, joins (new nodes, re-joins with a
+/-- **Uniqueness.** After ANY sequence of bootstraps, discovery-driven `Notify` calls (with any
+notify bookkeeping), joins (new nodes, re-joins with a
 new address, new ids on used addresses, used ids on new addresses, on leaders and
 non-leaders, resolvable or not), removals and reaping decisions, starting from a node
 without configuration, no two entries of the configuration share an id and no two
@@ -490,6 +509,7 @@ def opTarget : Op → Option String
   | .remove _ id => some id
   | .reap _ id _ _ _ => some id
   | .bootstrap _ _ _ => none
+  | .notify _ _ _ _ _ _ _ _ => none
 
 /-- **The role persists.** Once a node's entry (id, address, role) is in the configuration, it
 stays exactly as it is through ANY later sequence of joins, removals, reaping decisions and
@@ -513,6 +533,31 @@ theorem role_persists (c : Config) (ops : List Op) (t : Server) (ht : t ∈ c)
       simp only [stepOp]
       have : c.isEmpty = false := by cases c <;> simp_all
       simp [this]; exact ht
+    | notify op hl rs ex self ns id addr =>
+      -- a node that has a configuration cannot be bootstrapped again
+      have hne : c.isEmpty = false := by cases c <;> simp_all
+      simp only [stepOp, hne, Bool.not_false, Bool.or_true]
+      unfold storeNotify
+      split
+      · exact ht
+      split
+      · exact ht
+      split
+      · exact ht
+      split
+      · exact ht
+      simp only
+      split
+      · exact ht
+      · have : bootstrap true self (List.map (fun p => ({ id := p.1, addr := p.2, suf := Suffrage.voter } : Server))
+            (ns.notifying ++ [(id, addr)])) = none := by
+          unfold bootstrap; split
+          · rfl
+          · split
+            · rfl
+            · rfl
+        simp only [this]
+        exact ht
 
 /-- **Notify-driven bootstrap** keeps the configuration empty or well-formed, and a repeated
 notification from the same id changes nothing. -/
